@@ -159,6 +159,7 @@ type rtResult struct {
 	printed  string
 	key      string // "" = round trip ok
 	what     string
+	errTypes string // types of ALL parse errors of the printed text (when it is rejected)
 }
 
 func parseProg(src string) (*ast.Program, error) {
@@ -211,6 +212,9 @@ func roundTrip(src string) rtResult {
 		// name the construct: the first parse error type
 		if pe, ok := err.(parser.Error); ok && len(pe.Errors) > 0 {
 			r.key = fmt.Sprintf("reparse-rejected:%T", pe.Errors[0])
+			for _, e := range pe.Errors {
+				r.errTypes += fmt.Sprintf("%T;", e)
+			}
 		}
 		return r
 	}
